@@ -404,23 +404,25 @@ type pendingDo struct {
 }
 
 type stepper struct {
-	h       *verifx.H
-	r       *verifx.Rng
-	dir     string
-	gen     int
-	e       *sqlite.Engine
-	m       *mockBinlog
-	wait    bool
-	repl    bool
-	pending []pendingDo
-	acked   []int
-	ackedW  map[int]int64 // acknowledged writes in wait-for-commit mode: id -> end offset
-	txDone  chan error    // non-nil while a timer commit is running/blocked
-	closed  bool
-	nextID  int
-	hold    bool
-	broken  bool
-	timer   time.Duration // > 0: the engine is opened with this (short) CommitEvery, real time is allowed to pass (`tick`)
+	h         *verifx.H
+	r         *verifx.Rng
+	dir       string
+	gen       int
+	e         *sqlite.Engine
+	m         *mockBinlog
+	wait      bool
+	repl      bool
+	pending   []pendingDo
+	acked     []int
+	ackedW    map[int]int64 // acknowledged writes in wait-for-commit mode: id -> end offset
+	txDone    chan error    // non-nil while a timer commit is running/blocked
+	closed    bool
+	nextID    int
+	hold      bool
+	broken    bool
+	curCtx    context.Context // context of the Do in flight (kCtxCancel / kCtxDeadline)
+	curCancel func()
+	timer     time.Duration // > 0: the engine is opened with this (short) CommitEvery, real time is allowed to pass (`tick`)
 }
 
 // aborted is set when the real engine left a call blocked for good (the harness cannot drive it any further): the
@@ -498,6 +500,8 @@ func (s *stepper) poll() {
 				if p.end > s.m.durable {
 					s.h.Viol("acked-not-durable", "write %d (end offset %d) was acknowledged while the binlog is durable only up to %d", p.id, p.end, s.m.durable)
 				}
+			} else if p.end > s.m.durable {
+				s.h.Viol("read-returned-uncommitted-data", "a wait-for-commit read (%d) that had read the write transaction up to offset %d returned while the binlog is durable only up to %d", p.id, p.end, s.m.durable)
 			}
 		default:
 			rest = append(rest, p)
@@ -564,9 +568,11 @@ const (
 	kSQLFail
 	kAppFail
 	kRead
+	kCtxCancel   // the callback's SQL succeeds, then the callback cancels the context Do was called with and returns its event
+	kCtxDeadline // the same with a deadline that expires before the callback returns
 )
 
-var kindNames = []string{"ok", "cbfail", "cbfail0", "sqlfail", "appfail", "read"}
+var kindNames = []string{"ok", "cbfail", "cbfail0", "sqlfail", "appfail", "read", "ctxcancel", "ctxdeadline"}
 var errCb = errors.New("verif: callback failed")
 
 func (s *stepper) callback(id, ln int, k doKind) func(sqlite.Conn, []byte) ([]byte, error) {
@@ -592,8 +598,30 @@ func (s *stepper) callback(id, ln int, k doKind) func(sqlite.Conn, []byte) ([]by
 		if k == kCbFail {
 			return evPayload(id, ln), errCb
 		}
+		if k == kCtxCancel && s.curCancel != nil {
+			s.curCancel() // from here on every statement on the caller's context fails
+		}
+		if k == kCtxDeadline && s.curCtx != nil {
+			<-s.curCtx.Done()
+		}
 		return evPayload(id, ln), nil
 	}
+}
+
+// ctxFor returns the context a Do of kind k is called with
+func (s *stepper) ctxFor(k doKind) (context.Context, func()) {
+	switch k {
+	case kCtxCancel:
+		ctx, cancel := context.WithCancel(context.Background())
+		s.curCtx, s.curCancel = ctx, cancel
+		return ctx, cancel
+	case kCtxDeadline:
+		ctx, cancel := context.WithTimeout(context.Background(), 2*time.Millisecond)
+		s.curCtx, s.curCancel = ctx, cancel
+		return ctx, cancel
+	}
+	s.curCtx, s.curCancel = nil, nil
+	return context.Background(), func() {}
 }
 
 type snap struct {
@@ -618,7 +646,9 @@ func (s *stepper) opDo(id, ln, extra int, k doKind) {
 	s.m.failNext = k == kAppFail
 	s.m.extra = extra
 	apps := s.m.appends
-	ch, dbo, _, err := s.e.VerifDoWithoutWait(context.Background(), "w", s.callback(id, ln, k))
+	ctx, cancel := s.ctxFor(k)
+	ch, dbo, _, err := s.e.VerifDoWithoutWait(ctx, "w", s.callback(id, ln, k))
+	cancel()
 	s.m.failNext, s.m.extra = false, 0
 	asap := 0
 	if s.m.appends > apps && s.m.lastASAP {
@@ -637,6 +667,9 @@ func (s *stepper) opDo(id, ln, extra int, k doKind) {
 		end := int64(0)
 		if k == kOK {
 			end = before.dbo + int64(pad4(ln))
+		}
+		if k == kRead {
+			end = before.to // what the read has seen: the write transaction up to its offset row
 		}
 		if ch != nil {
 			s.pending = append(s.pending, pendingDo{id: id, ch: ch, write: k == kOK, end: end})
@@ -1171,7 +1204,7 @@ func runStepCase(h *verifx.H, i int, r *verifx.Rng) {
 				s.opView()
 			}
 		default:
-			weights := []int{10, 2, 1, 2, 2, 2, 6, 4, 3, 1, 3, 2, 0}
+			weights := []int{10, 2, 1, 2, 2, 2, 6, 4, 3, 1, 3, 2, 0, 2, 1}
 			if s.timer > 0 {
 				weights[12] = 5
 			}
@@ -1219,6 +1252,10 @@ func runStepCase(h *verifx.H, i int, r *verifx.Rng) {
 				s.opView()
 			case 12:
 				s.opTick()
+			case 13:
+				s.opDo(s.newID(), s.randLen(), s.randExtra(), kCtxCancel)
+			case 14:
+				s.opDo(s.newID(), s.randLen(), 0, kCtxDeadline)
 			}
 		}
 	}
@@ -1333,8 +1370,14 @@ func childMain(h *verifx.H) {
 					k = kCbFail
 				case 1:
 					k = kSQLFail
+				case 2:
+					if r.Bool() {
+						k = kCtxCancel
+					}
 				}
-				err := e.Do(context.Background(), "w", st.callback(id, ln, k))
+				ctx, cancel := st.ctxFor(k)
+				err := e.Do(ctx, "w", st.callback(id, ln, k))
+				cancel()
 				switch {
 				case k == kOK && err == nil && wait:
 					say("A %d\n", id)
@@ -1671,6 +1714,12 @@ func runCrashCase(h *verifx.H, ci int, r *verifx.Rng) {
 		for id := range failedAll {
 			if have[id] {
 				h.Viol("failed-do-left-db-change", "Do %d returned an error but its row is in the database after restart", id)
+				break
+			}
+		}
+		for _, en := range entries {
+			if en.ev && failedAll[en.id] {
+				h.Viol("failed-do-left-binlog-record", "Do %d returned an error but its event is in the binlog (ends at %d)", en.id, en.end)
 				break
 			}
 		}
